@@ -50,7 +50,7 @@ def parsePairs : Nat → List Nat → Option (List (Nat × Nat) × List Nat)
     | none => none
   | _, _ => none
 
-def showResult (ver : Nat) (raw : List RawOp) (r : OrderedOut) : String :=
+def showResult (r : OrderedOut) : String :=
   let opsS := " ".intercalate (r.ops.toList.map fun o =>
     s!"{o.idx}:{optS o.next}:{optS o.prev}:{optS o.target}:{optS o.blockTarget}:{optS o.eaft}")
   let blocksS := " ".intercalate (r.blocks.map fun b =>
@@ -69,7 +69,7 @@ def runP (ws : List Nat) : String :=
         let prem := premisesLine ver raw entries (withPop != 0)
         match orderCode ver raw entries (withPop != 0) with
         | .error (st, e) => s!"err {stageS st} {e.toString}|{prem}"
-        | .ok r => showResult ver raw r ++ "|" ++ prem
+        | .ok r => showResult r ++ "|" ++ prem
   | _ => "bad-op"
 
 def parseGraph (ws : List Nat) : Option (List Nat × List (Nat × Nat)) :=
